@@ -255,10 +255,26 @@ const ownDictGet = <T>(dict: Record<string, T>, key: unknown): T | undefined => 
   return Object.prototype.hasOwnProperty.call(dict, key) ? dict[String(key)] : undefined;
 };
 
+// JSON.stringify throws on bigint and on cyclic values, both of which can be the rejected input
+const safeStringify = (it: unknown): string => {
+  try {
+    const out = JSON.stringify(it, (_k, v) => (typeof v === "bigint" ? `${v}n` : v));
+    return out === undefined ? String(it) : out;
+  } catch (e) {
+    return Object.prototype.toString.call(it);
+  }
+};
+
 function deduplicateErrors(errors: DecodeError[]): DecodeError[] {
   const seen = new Set<string>();
   return errors.filter((err) => {
-    const key = JSON.stringify(err);
+    let key: string;
+    try {
+      key = JSON.stringify(err, (_k, v) => (typeof v === "bigint" ? `${v}n` : v));
+    } catch (e) {
+      // not serialisable (cyclic received value): keep the error
+      return true;
+    }
     if (seen.has(key)) return false;
     seen.add(key);
     return true;
@@ -1650,12 +1666,12 @@ export class MapRuntype extends BaseRuntype {
     }
     let acc: DecodeError[] = [];
     for (const [k, v] of input) {
-      pushPath(ctx, `key(${JSON.stringify(k)})`);
+      pushPath(ctx, `key(${safeStringify(k)})`);
       if (!this.keyParser.validate(ctx, k)) {
         acc = acc.concat(this.keyParser.reportDecodeError(ctx, k));
       }
       popPath(ctx);
-      pushPath(ctx, `value(${JSON.stringify(k)})`);
+      pushPath(ctx, `value(${safeStringify(k)})`);
       if (!this.valueParser.validate(ctx, v)) {
         acc = acc.concat(this.valueParser.reportDecodeError(ctx, v));
       }
@@ -1712,7 +1728,7 @@ export class SetRuntype extends BaseRuntype {
     }
     let acc: DecodeError[] = [];
     for (const v of input) {
-      pushPath(ctx, `item(${JSON.stringify(v)})`);
+      pushPath(ctx, `item(${safeStringify(v)})`);
       if (!this.itemParser.validate(ctx, v)) {
         acc = acc.concat(this.itemParser.reportDecodeError(ctx, v));
       }
@@ -1870,7 +1886,7 @@ export class AnyOfDiscriminatedRuntype extends BaseRuntype {
     const parser = ownDictGet(this.mapping, input[this.discriminator]);
     if (parser == null) {
       throw new Error(
-        "INTERNAL ERROR: Missing parser for discriminator " + JSON.stringify(input[this.discriminator]),
+        "INTERNAL ERROR: Missing parser for discriminator " + safeStringify(input[this.discriminator]),
       );
     }
     return {
